@@ -1,12 +1,24 @@
 /-
   C05 — numeric literals denote their exact mathematical value.
-  Scanner theorems (integer literals, `C05_fast_exact`) are in LexprModel/Proofs/Numbers.lean (when
-  present).  Proved here, against the table regenerated from the code on this run: every `POW10`
+  Fully proved (LexprModel/Proofs/Numbers.lean, imported here; namespace Lexpr.Numbers):
+   * `overflow_iff`: the `overflow!` test is exact; `rn_exact`: integers below 2^53 convert exactly;
+     `mulPos_correct`, `divPos_correct`: one multiplication / division of exact operands is one correct
+     rounding of the exact product / quotient;
+   * `C05_fast_exact`, `C05_f64FromParts_fast`: with `sig < 2^53` and `|e| <= 22` the fast path returns the
+     correctly rounded `sig * 10^e` (premise: the first 23 POW10 entries are exact — discharged for the
+     regenerated table by `pow10Tab_exact`);
+   * `C05_int_digits_radix`, `C05_int_digits`: an integer literal in radix 2, 8, 10 or 16 with any
+     number of leading zeros whose value is at most u64::MAX reads as exactly that integer; negative
+     literals down to -2^63 as that i64, below that as the negated float;
+   * `C05_never_inf`, `C05_out_of_range`: the conversion never returns infinity or NaN; the only error is
+     NumberOutOfRange.
+  Not yet covered by theorems: the fraction/exponent scanners (`parseDecimal`, `parseExponent`), the
+  long-integer path and the 2^-50 accuracy bound outside the exact region (checked by the oracle).  Proved here, against the table regenerated from the code on this run: every `POW10`
   entry is the correctly rounded power of ten and the first 23 are exact (the premise of the
   exactness region |exponent| ≤ 22); and basic facts of the rounding function.
 -/
-import LexprModel.Lex
 import LexprModel.TablesCheck
+import LexprModel.Proofs.Numbers
 namespace Lexpr
 namespace F64
 
